@@ -715,7 +715,8 @@ fn c06_mixed(input: &Input, obs: &mut Obs) -> Result<(), Fail> {
     for k in 0..nreq {
         let n = s.range(1, 30);
         let expect = s.chance(190);
-        stream.extend_from_slice(format!("PUT /{} HTTP/1.{}\r\n{}Content-Length: {}\r\n\r\n", k, s.below(2), if expect { "Expect: 100-continue\r\n" } else { "" }, n).as_bytes());
+        let extra = ["", "", "Connection: close\r\n", "connection: Close\r\n", "Connection: keep-alive\r\n", "Upgrade: h2c\r\n"][s.below(6)];
+        stream.extend_from_slice(format!("PUT /{} HTTP/1.{}\r\n{}{}Content-Length: {}\r\n\r\n", k, s.below(2), extra, if expect { "Expect: 100-continue\r\n" } else { "" }, n).as_bytes());
         stream.extend(filler(0, k as u8, n));
     }
     let nops = s.range(3, 50);
